@@ -25,7 +25,7 @@ GenNext ==
   /\ ~Done
   /\ \/ \E cc \in BOOLEAN : Open(cc) /\ Rec([ev |-> "Open", cc |-> cc])
      \/ Mig9 /\ Rec([ev |-> "Mig9"])
-     \/ (HomoTx \/ \E p \in 0..MaxPos : AssocTx(p)) /\ Rec([ev |-> "Tx"])
+     \/ (HomoTx \/ \E p \in LeakPos : AssocTx(p)) /\ Rec([ev |-> "Tx"])
      \/ Cancel /\ Last = "Tx" /\ Rec([ev |-> "Cancel"])
      \/ Fail /\ Rec([ev |-> "Fail"])
      \/ Finish /\ Rec([ev |-> "Finish"])
@@ -36,4 +36,6 @@ GenNext ==
 
 GenSpec == GenInit /\ [][GenNext]_gvars
 Emit == Done => PrintT(<<"BEH", ToJson([w |-> w, steps |-> hist])>>)
+(* with BugCursorLeak = TRUE: only the behaviours in which the as-is model takes the cursor-leak branch *)
+EmitLeak == (Done /\ leaked) => PrintT(<<"BEH", ToJson([w |-> w, steps |-> hist])>>)
 =============================================================================
